@@ -273,6 +273,9 @@ class LSMTree(Entity):
         # WAL sequence numbers that are logged but not yet applied to a memtable
         self._wal_inflight: set[int] = set()
 
+        # True while a compaction is waiting for its SSTable write
+        self._compacting: bool = False
+
     def downstream_entities(self) -> list[Entity]:
         if self._wal is not None:
             return [self._wal]
@@ -581,7 +584,15 @@ class LSMTree(Entity):
             self._compact_sync()
 
     def _compact(self) -> Generator[float]:
-        """Run a compaction cycle."""
+        """Run a compaction cycle.
+
+        Only one compaction runs at a time: a second one started during the
+        write delay would select the same SSTables and install a second,
+        conflicting copy of their keys. The next flush triggers it again.
+        """
+        if self._compacting:
+            return
+
         source_level, sstables = self._compaction_strategy.select_compaction(self._levels)
         if not sstables:
             return
@@ -595,7 +606,7 @@ class LSMTree(Entity):
         # Also include overlapping SSTables from target level
         overlapping = []
         if target_level != source_level:
-            for sst in self._levels[target_level]:
+            for sst in reversed(self._levels[target_level]):  # newest first: newer values win
                 if any(sst.overlaps(s) for s in sstables):
                     overlapping.append(sst)
                     for k, v in sst.scan():
@@ -614,7 +625,11 @@ class LSMTree(Entity):
 
             # Write latency
             pages = max(1, new_sst.key_count // 16)
-            yield pages * self._sstable_write_latency
+            self._compacting = True
+            try:
+                yield pages * self._sstable_write_latency
+            finally:
+                self._compacting = False
 
             # Remove old SSTables and add new one
             for sst in sstables:
@@ -646,7 +661,7 @@ class LSMTree(Entity):
 
         overlapping = []
         if target_level != source_level:
-            for sst in self._levels[target_level]:
+            for sst in reversed(self._levels[target_level]):  # newest first: newer values win
                 if any(sst.overlaps(s) for s in sstables):
                     overlapping.append(sst)
                     for k, v in sst.scan():
